@@ -175,4 +175,286 @@ theorem slicePositions_nat (a b : Option Nat) (n : Nat)
       simpa [h1, h1', h2] using hr x y hx (Nat.le_refl _)
     · simpa [h1, h1', h2, h2'] using hr x y hx hy
 
+
+/-! ### slices with a step: `range(start, stop, step)` is `everyKth` of an interval -/
+
+theorem everyKth_nil (k : Nat) : Spec.everyKth k [] = [] := by
+  rw [Spec.everyKth]
+
+theorem everyKth_cons (k : Nat) (x : Nat) (xs : List Nat) :
+    Spec.everyKth k (x :: xs) = x :: Spec.everyKth k (xs.drop (k - 1)) := by
+  rw [Spec.everyKth]
+
+theorem everyKth_getElem? (k : Nat) (hk : 0 < k) :
+    ∀ (j : Nat) (l : List Nat), (Spec.everyKth k l)[j]? = l[j * k]?
+  | j, [] => by simp [everyKth_nil]
+  | 0, x :: xs => by simp [everyKth_cons]
+  | j+1, x :: xs => by
+    rw [everyKth_cons, List.getElem?_cons_succ, everyKth_getElem? k hk j, List.getElem?_drop]
+    have : (j+1)*k = (k - 1 + j*k) + 1 := by rw [Nat.succ_mul]; omega
+    rw [this, List.getElem?_cons_succ]
+
+/-- `everyKth` as an explicit arithmetic progression of indices -/
+theorem everyKth_eq_map (k : Nat) (hk : 0 < k) (l : List Nat) (m : Nat) (f : Nat → Nat)
+    (hm : ∀ j, j < m ↔ j * k < l.length) (hf : ∀ j (h : j * k < l.length), f j = l[j * k]) :
+    Spec.everyKth k l = (List.range m).map f := by
+  apply List.ext_getElem?
+  intro j
+  rw [everyKth_getElem? k hk]
+  by_cases hj : j < m
+  · have h := (hm j).mp hj
+    simp [hj, h, hf j h]
+  · have h : ¬ j * k < l.length := fun h => hj ((hm j).mpr h)
+    simp [hj]
+    omega
+
+theorem lt_div_succ_iff (x K j : Nat) (hK : 0 < K) : j < x / K + 1 ↔ j * K ≤ x := by
+  rw [Nat.lt_succ_iff, Nat.le_div_iff_mul_le hK]
+
+theorem rangeLen_pos_iff (A B K : Nat) (hK : 0 < K) (j : Nat) :
+    j < rangeLen (A : Int) (B : Int) (K : Int) ↔ A + j * K < B := by
+  unfold rangeLen
+  have h1 : (K : Int) > 0 := by omega
+  simp only [h1, if_true]
+  by_cases hlt : (A : Int) < (B : Int)
+  · simp only [hlt, if_true]
+    have e : (B : Int) - (A : Int) - 1 = ((B - A - 1 : Nat) : Int) := by omega
+    rw [e, ← Int.natCast_ediv]
+    have e2 : (((B - A - 1) / K : Nat) : Int) + 1 = (((B - A - 1) / K + 1 : Nat) : Int) := by omega
+    rw [e2, Int.toNat_natCast, lt_div_succ_iff _ _ _ hK]
+    omega
+  · simp only [hlt, if_false]
+    have : B ≤ A := by omega
+    constructor
+    · intro h; omega
+    · intro h
+      have : 0 ≤ j * K := Nat.zero_le _
+      omega
+
+theorem rangeLen_neg_iff (A B K : Nat) (hK : 0 < K) (j : Nat) :
+    j < rangeLen ((B : Int) - 1) ((A : Int) - 1) (-(K : Int)) ↔ A + j * K < B := by
+  unfold rangeLen
+  have h1 : ¬ (-(K : Int) > 0) := by omega
+  have h2 : (-(K : Int) < 0) := by omega
+  simp only [h1, h2, if_true, if_false]
+  by_cases hlt : (A : Int) - 1 < (B : Int) - 1
+  · simp only [hlt, if_true]
+    have e : (B : Int) - 1 - ((A : Int) - 1) - 1 = ((B - A - 1 : Nat) : Int) := by omega
+    rw [e, Int.neg_neg, ← Int.natCast_ediv]
+    have e2 : (((B - A - 1) / K : Nat) : Int) + 1 = (((B - A - 1) / K + 1 : Nat) : Int) := by omega
+    rw [e2, Int.toNat_natCast, lt_div_succ_iff _ _ _ hK]
+    omega
+  · simp only [hlt, if_false]
+    have : B ≤ A := by omega
+    constructor
+    · intro h; omega
+    · intro h
+      have : 0 ≤ j * K := Nat.zero_le _
+      omega
+
+theorem rangeList_pos (A B K : Nat) (hK : 0 < K) :
+    rangeList (A : Int) (B : Int) (K : Int) = Spec.everyKth K (List.range' A (B - A)) := by
+  unfold rangeList
+  symm
+  apply everyKth_eq_map K hK
+  · intro j
+    rw [rangeLen_pos_iff A B K hK, List.length_range']
+    omega
+  · intro j h
+    rw [List.length_range'] at h
+    rw [List.getElem_range']
+    have : (A : Int) + (j : Int) * (K : Int) = ((A + j * K : Nat) : Int) := by
+      simp
+    rw [this, Int.toNat_natCast]
+    omega
+
+theorem rangeList_neg (A B K : Nat) (hK : 0 < K) :
+    rangeList ((B : Int) - 1) ((A : Int) - 1) (-(K : Int))
+      = Spec.everyKth K (List.range' A (B - A)).reverse := by
+  unfold rangeList
+  symm
+  apply everyKth_eq_map K hK
+  · intro j
+    rw [rangeLen_neg_iff A B K hK, List.length_reverse, List.length_range']
+    omega
+  · intro j h
+    rw [List.length_reverse, List.length_range'] at h
+    rw [List.getElem_reverse, List.getElem_range']
+    simp only [List.length_range']
+    have : (B : Int) - 1 + (j : Int) * (-(K : Int)) = ((B - 1 - j * K : Nat) : Int) := by
+      have : ((j * K : Nat) : Int) = (j : Int) * (K : Int) := by simp
+      rw [Int.mul_neg]
+      omega
+    rw [this, Int.toNat_natCast]
+    omega
+
+
+theorem sliceIndices_adj_pos (v n x : Int) (h0 : 0 ≤ v) (hn : v ≤ n) :
+    (if v < 0 then x else if v ≥ n then n else v) = v := by
+  rw [if_neg (by omega)]
+  split <;> omega
+
+theorem sliceIndices_adj_neg (v n x : Int) (h0 : 0 ≤ v) (hn : v < n) :
+    (if v < 0 then x else if v ≥ n then n - 1 else v) = v := by
+  rw [if_neg (by omega), if_neg (by omega)]
+
+theorem sliceIndices_pos (s e step : Option Int) (n A B : Nat)
+    (hk : 0 < step.getD 1) (hA : A ≤ n) (hB : B ≤ n)
+    (hs : s = none ∧ A = 0 ∨ s = some (A : Int))
+    (he : e = none ∧ B = n ∨ e = some (B : Int)) :
+    sliceIndices s e step n = .ok ((A : Int), (B : Int), step.getD 1) := by
+  unfold sliceIndices
+  have h0 : (step.getD 1 == 0) = false := by
+    rw [beq_eq_false_iff_ne]; omega
+  have h1 : ¬ (step.getD 1 < 0) := by omega
+  simp only [h0, Bool.false_eq_true, if_false, h1]
+  have a1 := sliceIndices_adj_pos (A : Int) n
+  have a2 := sliceIndices_adj_pos (B : Int) n
+  rcases hs with ⟨rfl, rfl⟩ | rfl <;> rcases he with ⟨rfl, rfl⟩ | rfl <;> dsimp only
+  · rfl
+  · rw [a2 _ (by omega) (by omega)]; rfl
+  · rw [a1 _ (by omega) (by omega)]
+  · rw [a1 _ (by omega) (by omega), a2 _ (by omega) (by omega)]
+
+theorem sliceIndices_neg (s e step : Option Int) (n A B : Nat)
+    (hk : step.getD 1 < 0) (hA : A ≤ n) (hB : B ≤ n)
+    (hs : s = none ∧ B = n ∨ s = some ((B : Int) - 1) ∧ 0 < B)
+    (he : e = none ∧ A = 0 ∨ e = some ((A : Int) - 1) ∧ 0 < A) :
+    sliceIndices s e step n = .ok ((B : Int) - 1, (A : Int) - 1, step.getD 1) := by
+  unfold sliceIndices
+  have h0 : (step.getD 1 == 0) = false := by
+    rw [beq_eq_false_iff_ne]; omega
+  simp only [h0, Bool.false_eq_true, if_false, hk, if_true]
+  have a1 := sliceIndices_adj_neg ((A : Int) - 1) n
+  have a2 := sliceIndices_adj_neg ((B : Int) - 1) n
+  rcases hs with ⟨rfl, rfl⟩ | ⟨rfl, hB0⟩ <;> rcases he with ⟨rfl, rfl⟩ | ⟨rfl, hA0⟩ <;> dsimp only
+  · rfl
+  · rw [a1 _ (by omega) (by omega)]
+  · rw [a2 _ (by omega) (by omega)]; rfl
+  · rw [a1 _ (by omega) (by omega), a2 _ (by omega) (by omega)]
+
+
+theorem slicePositions_step_pos (s e step : Option Int) (n A B : Nat)
+    (hk : 0 < step.getD 1) (hA : A ≤ n) (hB : B ≤ n)
+    (hs : s = none ∧ A = 0 ∨ s = some (A : Int))
+    (he : e = none ∧ B = n ∨ e = some (B : Int)) :
+    slicePositions s e step n
+      = .ok (Spec.everyKth (step.getD 1).natAbs (List.range' A (B - A))) := by
+  unfold slicePositions
+  rw [sliceIndices_pos s e step n A B hk hA hB hs he]
+  simp only [bind, Except.bind, pure, Except.pure]
+  congr 1
+  generalize step.getD 1 = k at hk
+  obtain ⟨K, rfl⟩ := Int.eq_ofNat_of_zero_le (Int.le_of_lt hk)
+  rw [Int.natAbs_natCast]
+  exact rangeList_pos A B K (by omega)
+
+theorem slicePositions_step_neg (s e step : Option Int) (n A B : Nat)
+    (hk : step.getD 1 < 0) (hA : A ≤ n) (hB : B ≤ n)
+    (hs : s = none ∧ B = n ∨ s = some ((B : Int) - 1) ∧ 0 < B)
+    (he : e = none ∧ A = 0 ∨ e = some ((A : Int) - 1) ∧ 0 < A) :
+    slicePositions s e step n
+      = .ok (Spec.everyKth (step.getD 1).natAbs (List.range' A (B - A)).reverse) := by
+  unfold slicePositions
+  rw [sliceIndices_neg s e step n A B hk hA hB hs he]
+  simp only [bind, Except.bind, pure, Except.pure]
+  congr 1
+  generalize step.getD 1 = k at hk
+  obtain ⟨K, hK⟩ := Int.eq_ofNat_of_zero_le (a := -k) (by omega)
+  have : k = -(K : Int) := by omega
+  subst this
+  rw [Int.natAbs_neg, Int.natAbs_natCast]
+  exact rangeList_neg A B K (by omega)
+
+/-- the empty slice `0:0:step` -/
+theorem slicePositions_zero_zero (step : Option Int) (n : Nat) (hstep : step ≠ some 0) :
+    slicePositions (some 0) (some 0) step n = .ok [] := by
+  have h0 : (step.getD 1 == 0) = false := by
+    rw [beq_eq_false_iff_ne]
+    cases step with
+    | none => decide
+    | some k => simp at hstep ⊢; exact hstep
+  unfold slicePositions sliceIndices
+  simp only [h0, Bool.false_eq_true, if_false, bind, Except.bind, pure, Except.pure]
+  congr 1
+  unfold rangeList rangeLen
+  simp
+
+theorem stepPos_eq (step : Option Int) : Lib.stepPos step = decide (0 < step.getD 1) := by
+  cases step with
+  | none => rfl
+  | some k => simp [Lib.stepPos]
+
+
+/-- assembling, positive step: `start ↦ A`, `stop ↦ B` -/
+theorem slice_assemble_pos (start stop : Option Label) (step : Option Int) (n : Nat)
+    (gA gB : Label → Int) (fA fB : Label → Nat)
+    (hgA : ∀ v, gA v = (fA v : Int)) (hgB : ∀ v, gB v = (fB v : Int))
+    (hA : ∀ v, fA v ≤ n) (hB : ∀ v, fB v ≤ n) (hpos : 0 < step.getD 1) :
+    slicePositions (start.map gA) (stop.bind fun v => some (gB v)) step n
+      = .ok (Spec.everyKth (step.getD 1).natAbs
+          (List.range' ((start.map fA).getD 0) ((stop.map fB).getD n - (start.map fA).getD 0))) := by
+  apply slicePositions_step_pos _ _ _ _ _ _ hpos
+  · cases start with
+    | none => simp
+    | some v => exact hA v
+  · cases stop with
+    | none => simp
+    | some v => exact hB v
+  · cases start with
+    | none => exact Or.inl ⟨rfl, rfl⟩
+    | some v => exact Or.inr (by simp [hgA])
+  · cases stop with
+    | none => exact Or.inl ⟨rfl, rfl⟩
+    | some v => exact Or.inr (by simp [hgB])
+
+/-- assembling, negative step: `start ↦ B - 1` (empty selection if that is `-1`), `stop ↦ A - 1` or open -/
+theorem slice_assemble_neg (start stop : Option Label) (step : Option Int) (n : Nat)
+    (gA gB : Label → Int) (fA fB : Label → Nat)
+    (hgA : ∀ v, gA v = (fA v : Int)) (hgB : ∀ v, gB v = (fB v : Int))
+    (hA : ∀ v, fA v ≤ n) (hB : ∀ v, fB v ≤ n) (hneg : step.getD 1 < 0) :
+    ((if (start.map (fun v => gB v - 1) == some (-1)) = true then
+        (Except.ok (some 0, some 0) : Except Err (Option Int × Option Int))
+      else Except.ok (start.map (fun v => gB v - 1),
+        stop.bind fun v => if (gA v == 0) = true then none else some (gA v - 1))).bind
+      fun ab => slicePositions ab.fst ab.snd step n)
+      = .ok (Spec.everyKth (step.getD 1).natAbs
+          (List.range' ((stop.map fA).getD 0) ((start.map fB).getD n - (stop.map fA).getD 0)).reverse) := by
+  have hstep : step ≠ some 0 := by intro h; rw [h] at hneg; simp at hneg
+  by_cases h1 : (start.map (fun v => gB v - 1) == some (-1)) = true
+  · rw [if_pos h1]
+    simp only [Except.bind]
+    rw [slicePositions_zero_zero step n hstep]
+    cases start with
+    | none => simp at h1
+    | some v =>
+      simp [hgB] at h1
+      have : fB v = 0 := by omega
+      simp [this, everyKth_nil]
+  · rw [if_neg h1]
+    simp only [Except.bind]
+    apply slicePositions_step_neg _ _ _ _ _ _ hneg
+    · cases stop with
+      | none => simp
+      | some v => exact hA v
+    · cases start with
+      | none => simp
+      | some v => exact hB v
+    · cases start with
+      | none => exact Or.inl ⟨rfl, rfl⟩
+      | some v =>
+        simp [hgB] at h1
+        exact Or.inr ⟨by simp [hgB], by simp; omega⟩
+    · cases stop with
+      | none => exact Or.inl ⟨rfl, rfl⟩
+      | some v =>
+        by_cases h2 : (gA v == 0) = true
+        · left
+          simp [hgA] at h2
+          simp [hgA, h2]
+        · right
+          simp [hgA] at h2
+          simp [hgA, h2]
+          omega
+
 end DimModel
